@@ -14,6 +14,8 @@ From PowHsm Require Import Gen.SrcM.
 From PowHsm Require Import Proofs.SrcEquivDongleM.
 From PowHsm Require Import Proofs.SrcEquivSignM.
 From PowHsm Require Import Proofs.SrcLiftSign.
+From PowHsm Require Import Proofs.SrcEquivSignProtoM.
+From PowHsm Require Import Proofs.SrcEquivProtoV1M.
 Open Scope N_scope.
 
 (* for every device script: the chunks sent are contiguous slices of the data in order, each of the requested size capped by what remains, so what the device holds is always a prefix of the data *)
@@ -270,5 +272,34 @@ Theorem C01_source_sign_authorized_success_device_holds :
            (nv <> 1 -> ed = []) /\
            concat (map fst g3) = receipt /\ parse_proof (concat (map fst g4)) = Some proof.
 Proof. exact (@src_sign_authorized_success_device_holds). Qed.
+
+(* TIE BY TRANSLATION (device monad): the handler _sign of ledger/protocol.py (hash branch and authorized branch: second-stage validation, clearing of the transaction, repair, exchange, except ladder, result translation), as regenerated from the Python source text, runs on every world as the model's op_sign_v5 for every request whose message member is absent or an object (which the request gate guarantees: ValLemmasSignProtoM.gate_message_absent_or_object; without that side condition the statement is false - Python's `in` on a string message is a substring test - see the Remark sign_handler_counterexample) *)
+Theorem C01_source_sign_handler_is_model :
+  forall (kind : dongle_kind) (init : pm pv) (cm : string -> pv -> list pv -> pr pv)
+           (fuel : nat) (self : pv) (req : obj) (x : str) (els : list N) 
+           (w : world),
+         SrcEquivProtoM.init_ok kind init ->
+         tx_oracles_ok cm ->
+         oracles_ok cm (SrcEquivBase.path_obj els) (path_to_binary els) ->
+         jget (s "keyId") req = Some (JStr x) ->
+         bip32_path x = Some els ->
+         ValLemmasSignProtoM.message_absent_or_object req ->
+         (S (Datatypes.length (script (snd (ensure_connection kind w)))) <= fuel)%nat ->
+         srcm_HSM2ProtocolLedger___sign fuel cm init self (SrcEquivProtoM.request_with_path req els)
+           w = mres SrcEquivProtoM.rtuple_pv (op_sign_v5 kind req w).
+Proof. exact (@srcm_sign_handler_ok). Qed.
+
+(* the legacy protocol's _sign (ledger/protocol_v1.py) likewise is the model's op_sign_v1 *)
+Theorem C01_source_sign_handler_v1_is_model :
+  forall (kind : dongle_kind) (init : pm pv) (cm : string -> pv -> list pv -> pr pv)
+           (self : pv) (req : obj) (x h : str) (els : list N) (w : world),
+         SrcEquivProtoM.init_ok kind init ->
+         jget (s "keyId") req = Some (JStr x) ->
+         bip32_path x = Some els ->
+         jget (s "message") req = Some (JStr h) ->
+         cm "to_binary" (SrcEquivBase.path_obj els) [] = POk (VBytes (path_to_binary els)) ->
+         srcm_HSM1ProtocolLedger___sign cm init self (SrcEquivProtoM.request_with_path req els) w =
+         mres SrcEquivProtoM.rtuple_pv (op_sign_v1 kind req w).
+Proof. exact (@srcm_v1_sign_ok). Qed.
 
 Example C01_nonvacuous : True. Proof. exact I. Qed. (* concrete runs closed by vm_compute in Proofs/C01.v: chunks_example (device asks 3, then 2, then moves on), chunks_example_early, the sign_authorized success and early-move-on examples *)
